@@ -145,6 +145,35 @@ def build(rng, cname, ctext, ctx, nl, with_multiline_string, with_filters):
         lines.append("  " + stmt)
         exp = len(lines)
         lines.append("}")
+    elif ctx == "twin":
+        # the failing operation stands in an anonymous function literal that has a byte-identical twin on earlier lines
+        body = rng.choice(["a / b", "a % b", "a[b]", "a(b)", "-a + b", "a + b", "a < b", "a.src", "len(a, b)", "a << b"])
+        args = {"a / b": "(1, 0)", "a % b": "(1, 0)", "a[b]": "([1], 5)", "a(b)": "(1, 2)", "-a + b": "(\"s\", 1)", "a + b": "(1, \"s\")", "a < b": "([1], 2)",
+                "a.src": "(5, 0)", "len(a, b)": "(1, 2)", "a << b": "(\"s\", 1)"}[body]
+        lines.append("let twins = [fn(a, b) {")
+        lines.append("  " + body)
+        lines.append("},")
+        for _ in range(rng.randint(0, 2)):
+            lines.append("# between")
+        lines.append("fn(a, b) {")
+        lines.append("  " + body)
+        exp = len(lines)
+        lines.append("}, fn(a, b) {")
+        lines.append("  " + body)
+        lines.append("}];")
+        lines.append("twins[1]" + args + ";")
+    elif ctx == "wrapped-arm":
+        # a range pattern alone on its line, the arrow and the arm on later lines; the comparison of the pattern fails
+        lines.append("let wv = match \"text\" {")
+        lines.append("  100 => 1,")
+        lines.append("  1..5")
+        exp = len(lines)
+        lines.append("    => 2,")
+        lines.append("  7 |")
+        lines.append("  20..=30")
+        lines.append("    => 3,")
+        lines.append("  _ => 4")
+        lines.append("};")
     elif ctx == "recursion":
         # runaway recursion: the failing operation is the innermost call, written on its own line inside the function
         shape = rng.randrange(5)
@@ -213,6 +242,13 @@ def run(chk):
             for _ in range(reps * 4):
                 text, exp = build(rng, "stack-overflow", "rz()", "recursion", nl, ms, with_filters=False)
                 jobs.append(("stack-overflow", "recursion", nl, ms, text, (exp, tuple(build.also)), "rz()"))
+    for nl in ("\n", "\r\n"):
+        for ms in (False, True):
+            for _ in range(reps * 3):
+                text, exp = build(rng, "twin-literal", "fn(a, b) { .. }", "twin", nl, ms, with_filters=False)
+                jobs.append(("twin-literal", "twin", nl, ms, text, exp, "fn(a, b) { .. }"))
+            text, exp = build(rng, "range-pattern", "1..5 =>", "wrapped-arm", nl, ms, with_filters=False)
+            jobs.append(("range-pattern", "wrapped-arm", nl, ms, text, exp, "1..5 (wrapped arm)"))
     cases = [Case("l%d" % i, j[4], {"steps": 100000}) for i, j in enumerate(jobs)]
     res = core.run_cases(cases)
     for i, (cname, ctx, nl, ms, text, exp, ctext) in enumerate(jobs):
